@@ -33,7 +33,7 @@ def record_problems(res, fun, x):
         return out
     for name, a in (('error_estimate', est), ('final_step', fs)):
         try:
-            np.broadcast_to(a, val.shape)
+            np.broadcast_shapes(a.shape, val.shape)
         except ValueError:
             out.append(('record-shape', '%s of shape %r does not broadcast against the result %r' % (name, a.shape, val.shape)))
     fin = np.isfinite(val).ravel()
@@ -131,3 +131,98 @@ def replay(case):
 
 def _tup(o):
     return tuple(_tup(v) for v in o) if isinstance(o, list) else o
+
+
+# ---------------------------------------------------------------------------------------------
+# Jacobian / Gradient (execution space and oracle of C03)
+
+def work_jac(chunk, tier='quick'):
+    import warnings
+    import numdifftools as nd
+    from mc.props import c03
+    from mc.oracle import ridge
+    from mc.props import c01_common as cm
+    acc = fw.Acc()
+    for spec, ptk in chunk:
+        spec = tuple(spec)
+        family, out, m, n, k, variant = spec
+        if family != 'ridge' or out == 'matrix':
+            continue
+        orc = c03.PointOracle(spec, ptk)
+        fun = ridge.make_fun(spec)
+        x = np.array(orc.x, dtype=float)
+        for cls in (['Jacobian', 'Gradient'] if out == 'scalar' else ['Jacobian']):
+            for method in c03.METHODS:
+                for order in c03.ORDERS:
+                    items, skipped = orc.plan(method, order)
+                    case = ('multi-jac', spec, ptk, cls, method, order)
+                    jc = dict(kind='multi-jac', spec=list(spec), point=ptk, cls=cls, method=method, order=order,
+                              f=ridge.describe(spec), x=list(orc.x))
+                    fw.fresh_library_state()
+                    try:
+                        with warnings.catch_warnings():
+                            warnings.simplefilter('ignore')
+                            with np.errstate(all='ignore'):
+                                val, info = getattr(nd, cls)(fun, method=method, order=order, full_output=True)(x)
+                                direct = fun(x)
+                    except Exception:
+                        acc.case(case, nontrivial=False, outcome='raised')     # C03's verdict
+                        continue
+                    val = np.asarray(val)
+                    est = np.asarray(info.error_estimate)
+                    fs = np.asarray(info.final_step)
+                    prob = None
+                    if not bits_equal(np.squeeze(info.f_value), np.squeeze(direct)):
+                        prob = ('f_value', 'info.f_value %r != f(x) %r' % (info.f_value, direct))
+                    elif est.size != val.size or fs.size != val.size:
+                        prob = ('record-size', 'result %r, error_estimate %r, final_step %r' % (val.shape, est.shape, fs.shape))
+                    else:
+                        for name, a in (('error_estimate', est), ('final_step', fs)):
+                            try:
+                                np.broadcast_shapes(a.shape, val.shape)
+                            except ValueError:
+                                prob = ('record-shape', '%s %r does not broadcast against the result %r' % (name, a.shape, val.shape))
+                        e = np.abs(est.ravel())
+                        if prob is None and np.any(np.isfinite(val.ravel()) & ~(np.isfinite(e) & (est.ravel() >= 0))):
+                            prob = ('estimate-sign', 'error_estimate %r for a finite result' % (est.tolist(),))
+                    if prob:
+                        acc.violation('C02:%s:%s:%s' % (cls, prob[0], method), jc, prob[1], rank=n * 100 + m)
+                    if est.size != val.size:
+                        acc.case(case, nontrivial=False, outcome='record')
+                        continue
+                    est2 = np.abs(est.reshape(val.shape))
+                    F = max(cm.env('E', method, 1) / 100.0, 1e3 * EPS)
+                    bad, worst = None, 0.0
+                    for (i, j, l, exact, unit, nt) in items:
+                        idx = (j,) if val.ndim == 1 else ((i, j) if val.ndim == 2 else (i, j, l))
+                        if val.ndim == 0:
+                            idx = ()
+                        err = abs(float(val[idx]) - float(exact))
+                        bound = K1 * float(est2[idx]) + F * unit
+                        if est2[idx] > 0:
+                            worst = max(worst, max(err - F * unit, 0.0) / float(est2[idx]))
+                        if not err <= bound and bad is None:
+                            bad = (idx, err, float(est2[idx]), F * unit)
+                    acc.case(case, nontrivial=any(it[5] for it in items), cell='%s/%s' % (cls, method), outcome=bad is None)
+                    acc.maxi('worst_excess_over_estimate/%s/%s' % (cls, method), worst)
+                    if bad:
+                        acc.violation('C02:%s:dishonest-estimate:%s' % (cls, method), jc,
+                                      '%s(%s, method=%s, order=%d)(%r) entry %r: error %.3g > 100 x estimate %.3g + floor %.3g'
+                                      % (cls, ridge.describe(spec), method, order, list(orc.x), bad[0], bad[1], bad[2], bad[3]),
+                                      rank=n * 100 + m)
+    return acc
+
+
+_run_multi_hess = run_multi
+
+
+def run_multi(ctx):
+    from mc.props import c03
+    from mc.oracle import ridge
+    acc = _run_multi_hess(ctx)
+    sp = [s for s in c03.specs(ctx) if s[0] == 'ridge' and s[1] != 'matrix']
+    if ctx.quick:
+        sp = sp[ctx.seed % 3::3]
+    items = [(s, p) for s in sp for p in ridge.POINT_KINDS]
+    acc.merge(ctx.pmap(work_jac, items, chunk=4, tier=ctx.tier))
+    return acc
